@@ -16,6 +16,7 @@ from . import common, pipe, serve
 BASE = open(os.path.join(os.path.dirname(__file__), "c13_base.incn"), encoding="utf-8").read()
 
 # position -> (identifier in the base program, "value" | "type")
+MODLIB = "pub def item_fn() -> int:\n    return 7\n\n\npub def other_fn() -> int:\n    return 8\n"
 POSITIONS = {
     "const": ("LIMIT", "type"),
     "trait": ("Shower", "type"),
@@ -171,15 +172,49 @@ def run(tier):
             fail(pos, n, "behaviour-differs", {"position": pos, "name": n, "program": src, "stdout": r.stdout, "expected": base_out, "exit": r.exit})
         else:
             n_ok += 1
+    # ---- module names: a module file / directory may be named by any legal identifier too -------------------------------------
+    LAYOUTS = {
+        "module_file": lambda n: ({"prog.incn": f"from {n} import item_fn\nimport {n}::other_fn\n\n\ndef main() -> None:\n    println(item_fn())\n    println(other_fn())\n", f"{n}.incn": MODLIB}),
+        "nested_module_file": lambda n: ({"prog.incn": f"from pkg.{n} import item_fn, other_fn\n\n\ndef main() -> None:\n    println(item_fn())\n    println(other_fn())\n", f"pkg/{n}.incn": MODLIB}),
+        "module_directory": lambda n: ({"prog.incn": f"from {n}.inner import item_fn, other_fn\n\n\ndef main() -> None:\n    println(item_fn())\n    println(other_fn())\n", f"{n}/inner.incn": MODLIB}),
+    }
+    mod_names = [n for n in RUST_KEYWORDS + GENERATED if n in legal and n == n.lower()] + ["helper_mod"]
+    if tier != "thorough":
+        mod_names = [n for k, n in enumerate(mod_names) if k % 3 == 0 or n == "helper_mod"]
+    mjobs = []
+    for lay, mk in LAYOUTS.items():
+        for n in mod_names:
+            mjobs.append((lay, n, mk(n)))
+    mres = pipe.run_many([(k, files) for k, (lay, n, files) in enumerate(mjobs)])
+    base_ok = {lay: any(n == "helper_mod" and mres[k].stage == "run" and mres[k].stdout == "7\n8\n" for k, (l2, n, f) in enumerate(mjobs) if l2 == lay) for lay in LAYOUTS}
+    n_mod_ok = 0
+    for k, (lay, n, files) in enumerate(mjobs):
+        if not base_ok[lay] or n == "helper_mod":
+            continue  # the layout does not work with an ordinary name on this tree: position unusable
+        r = mres[k]
+        prog = "\n".join(f"# --- {p_}\n{t}" for p_, t in files.items())
+        if r.stage == "check" and "syntax error" in (r.detail or "") + r.stderr:
+            continue  # not a legal module name (Incan's own path keywords)
+        if r.stage != "run":
+            kind = r.stage + ":" + re.sub(r"[^A-Za-z0-9_:,]+", "_", (r.detail or ""))[:50]
+            fail(lay, n, kind, {"position": lay, "name": n, "program": prog, "files": files, "detail": r.detail, "stderr": r.stderr[-800:]})
+        elif r.exit != 0 or r.stdout != "7\n8\n":
+            fail(lay, n, "behaviour-differs", {"position": lay, "name": n, "program": prog, "files": files, "stdout": r.stdout, "expected": "7\n8\n", "exit": r.exit})
+        else:
+            n_mod_ok += 1
+    n_ok += n_mod_ok
     for key, cs in by_key.items():
         for c in cs[:1]:
             out.fail(key, c)
     cov = {
-        "evaluations": len(cases),
+        "evaluations": len(cases) + len(mjobs),
         "distinct_nontrivial": n_ok,
+        "module_name_cases": len(mjobs),
+        "module_name_cases_ok": n_mod_ok,
+        "module_layouts_usable": base_ok,
         "rule": f"{len(POSITIONS)} binding positions of one base program x names: {len(kw_legal)} Rust keywords that the real lexer accepts as identifiers "
         f"({' '.join(kw_legal)}), names used by generated code / prelude / derive methods, type-like and capitalisation-crossing names (quick: every keyword in 3 rotating positions, every other name in 2; "
-        "thorough: every name in every position, plus pairs of positions); non-trivial = renamed programs that were accepted, built, ran and printed exactly the base output",
+        "thorough: every name in every position, plus pairs of positions); the same lower-case names as the name of a module file, of a nested module file and of a module directory of a multi-file project (quick: every third name); non-trivial = renamed programs that were accepted, built, ran and printed exactly the base output",
         "samples": [{"position": p, "name": n} for p, n, _ in common.pick_samples(cases)],
         "exhaustive": True,
         "positions": len(POSITIONS),
@@ -203,6 +238,12 @@ def replay(path):
     common.build(need_cli=True)
     rec = json.load(open(path, encoding="utf-8"))
     c = rec["case"]
+    if "files" in c:
+        r = pipe.run_program(0, c["files"])
+        print("position", c["position"], "name", c["name"], "->", r.stage, r.detail, r.exit)
+        print(r.stdout)
+        print(r.stderr[-600:])
+        return 0 if (r.stage == "run" and r.exit == 0 and r.stdout == "7\n8\n") else 1
     b = pipe.run_program(0, {"prog.incn": BASE})
     r = pipe.run_program(0, {"prog.incn": c["program"]})
     print("position", c["position"], "name", c["name"])
